@@ -22,6 +22,10 @@ class TranslatorError(Exception):
     pass
 
 
+class SkeletonChanged(TranslatorError):
+    """the shape of the source changed, not (only) a literal"""
+
+
 F = None  # fixed literal marker
 
 # (name | None, expected value) in source order
@@ -64,6 +68,7 @@ PYX_NEXT_TEST = ('scope[m] and not matched[m] and q_atom.mask1 & i_bond.bond == 
                  'q_atom.mask2 & m_atom.bits2 == m_atom.bits2 and q_atom.mask3 & m_atom.bits3 == m_atom.bits3 and '
                  'q_atom.mask4 & m_atom.bits4')
 PYX_CLOSURE_TEST = 'not c_bond or j_bond.bond & c_bond != c_bond'
+PYX_COUNTER_TEST = 'closures_counter == q_atom.closure'
 STRUCT_FORMATS = {'header_struct': 'I', 'm_atom_struct': 'QQQQIII', 'q_atom_struct': 'QQQQIIIII', 'bond_struct': 'QI'}
 
 
@@ -133,7 +138,8 @@ def pyx_conditions(text):
     for m in re.finditer(r'if \((scope\[[nm]\].*?)\):', clean, re.S):
         conds.append(' '.join(m.group(1).split()))
     clos = re.search(r'if (not c_bond or [^:]*):', clean)
-    return conds, (' '.join(clos.group(1).split()) if clos else None)
+    cnt = re.search(r'if (closures_counter [^:]*):', clean)
+    return conds, (' '.join(clos.group(1).split()) if clos else None), (' '.join(cnt.group(1).split()) if cnt else None)
 
 
 def extract():
@@ -147,7 +153,7 @@ def extract():
         skel, ints = analyse(fns[name])
         shas[name] = sha(skel)
         if shas[name] != EXPECTED_SKELETON_SHA[name]:
-            raise TranslatorError(f'{name}: statement skeleton changed (sha {shas[name]}, expected '
+            raise SkeletonChanged(f'{name}: statement skeleton changed (sha {shas[name]}, expected '
                                   f'{EXPECTED_SKELETON_SHA[name]}): the translator does not know this shape')
         if len(ints) != len(holes):
             raise TranslatorError(f'{name}: {len(ints)} integer literals, expected {len(holes)}')
@@ -170,9 +176,9 @@ def extract():
     if fmts != STRUCT_FORMATS:
         raise TranslatorError(f'struct formats changed: {fmts}')
     pyx = (REPO / 'chython' / 'algorithms' / '_isomorphism.pyx').read_text()
-    conds, clos = pyx_conditions(pyx)
-    if conds != [PYX_ROOT_TEST, PYX_NEXT_TEST] or clos != PYX_CLOSURE_TEST:
-        raise TranslatorError(f'_isomorphism.pyx: mask conditions changed: {conds} / {clos}')
+    conds, clos, cnt = pyx_conditions(pyx)
+    if conds != [PYX_ROOT_TEST, PYX_NEXT_TEST] or clos != PYX_CLOSURE_TEST or cnt != PYX_COUNTER_TEST:
+        raise SkeletonChanged(f'_isomorphism.pyx: mask conditions changed: {conds} / {clos} / {cnt}')
     return {'consts': consts, 'skeletons': shas}
 
 
@@ -188,8 +194,14 @@ def render(consts):
 
 
 def generate():
-    info = extract()
+    """-> (path, info). When only the *shape* of the encoder source changed (statement skeleton / pyx condition text) the
+    generated file is left as it is and info['shape_changed'] names what changed: the correspondence streams then decide
+    whether the model (with the last extracted literals) still mirrors the code. Unknown literal positions are never guessed."""
     path = LEAN / 'ChythonModel' / 'Gen' / 'BitLayout.lean'
+    try:
+        info = extract()
+    except SkeletonChanged as e:
+        return path, {'shape_changed': str(e)}
     write_if_changed(path, render(info['consts']))
     return path, info
 
